@@ -11,6 +11,7 @@ import AdaptiveModel.Drv.Tri
 import AdaptiveModel.Drv.LND
 import AdaptiveModel.Drv.Integ
 import AdaptiveModel.Drv.Prims
+import AdaptiveModel.Drv.Quad
 /-!
 Line-protocol driver: `lake env lean --run Driver.lean < ops.txt`.
 Each input line is `<component> <op> <args…>`; one output line per input line.
@@ -43,6 +44,7 @@ def stepAll (a : All) (line : String) : All × String :=
   | "tri" :: rest => let (s, o) := Tri.Drv.stepLine a.tri rest; ({ a with tri := s }, o)
   | "save" :: rest => (a, SaveFs.Drv.stepLine rest)
   | "prims" :: rest => (a, Prims.Drv.stepLine rest)
+  | "quad" :: rest => (a, Quad.Drv.stepLine rest)
   | _ => (a, "bad-component")
 
 partial def loop (h : IO.FS.Stream) (out : IO.FS.Stream) (a : All) : IO Unit := do
